@@ -1311,9 +1311,12 @@ func (e *Engine) adoptObserved(tx *Tx, rep *Report) {
 	obs := e.Observe()
 	obs.Emitted = e.M.Emitted
 	obs.Minted, obs.Burned, obs.AcceptedBurnMsg = e.M.Minted, e.M.Burned, e.M.AcceptedBurnMsg
-	// outbound counter movement still counts as producer successes
-	if obs.NextNonce >= e.M.NextNonce {
-		e.Producers += obs.NextNonce - e.M.NextNonce
+	// every producer message of a successful transaction took exactly one nonce, whatever else is don't-care about it
+	for _, m := range tx.Msgs {
+		switch m.(type) {
+		case *ct.MsgSendMessage, *ct.MsgSendMessageWithCaller, *ct.MsgDepositForBurn, *ct.MsgDepositForBurnWithCaller:
+			e.Producers++
+		}
 	}
 	e.M = obs
 }
